@@ -39,10 +39,16 @@ type Program struct {
 	externs   map[string]*Contract // extern contracts by full name e.g. "fmt.Errorf"
 	modCache  map[*ssa.Function]*modInfo
 	ifaceContracts map[string]*Contract
+	boxed     map[*Term]boxedVal // interface value -> the value it boxes
 	constGlobals map[*ssa.Global]*Term
 	ghostZero map[string][][2]string // type -> (ghost field, initial value) of a freshly allocated object
 	heapVars  map[*Term]heapVarInfo
 	heapTypes map[string]types.Type
+}
+
+type boxedVal struct {
+	T   *Term
+	Typ types.Type
 }
 
 const modulePath = "github.com/evolbioinfo/goalign"
